@@ -1,3 +1,40 @@
-From Sonic Require Import Base.Prelude Model.Loop.
-Theorem C03_placeholder : True. Proof. exact I. Qed.
-Print Assumptions C03_placeholder.
+(* C03 -- event-loop accounting.
+   Model/Loop.v: l_pending is poller.pending; every place of /repo that changes it (setRW, DelRead, DelWrite, Del, Post,
+   dispatch, the timerfd handler, Timer.Cancel/Close, File.Close) is a transition of the model.  The statement is about
+   every reachable history: the induction is over script lines and, inside a line, over the work-list machine.
+   The return values of RunPending/PollOne/RunOneFor (they involve the real epoll_wait and its EINTR handling) are not
+   in the model: they are checked by the ledger oracle (Spec/OpLedger.v) on the implementation's trace. *)
+From Sonic Require Import Base.Prelude Gen.Consts Model.Loop Proofs.LoopProofs.
+Local Open Scope Z_scope.
+
+(* Whatever handlers do - re-issue, cancel, close, schedule, post; whatever the batch; registrations that fail
+   (regular files) included - the work-list machine never changes  Pending() - (registered read and write interests
+   + armed timers + posted handlers not yet run). *)
+Theorem C03_handlers_preserve_the_balance : forall fuel s stack, gap (exec fuel s stack) = gap s.
+Proof. exact exec_gap. Qed.
+Print Assumptions C03_handlers_preserve_the_balance.
+
+Theorem C03_script_line_preserves_the_balance : forall s o, fresh_op s o -> gap (lstep s o) = gap s.
+Proof. exact lstep_gap. Qed.
+Print Assumptions C03_script_line_preserves_the_balance.
+
+(* Whenever no handler is executing (after every script line of every script) Pending() equals the number of operations
+   in flight: deferred reads and writes, armed timers, posted handlers - nothing that completed inline, was cancelled,
+   was closed or failed to register is counted. *)
+Theorem C03_pending_counts_operations_in_flight : forall ops s, acct s -> fresh_ops s ops -> acct (lrun s ops).
+Proof. exact accounting_invariant. Qed.
+Print Assumptions C03_pending_counts_operations_in_flight.
+
+Theorem C03_initially_balanced : acct loop_init.
+Proof. exact acct_init. Qed.
+Print Assumptions C03_initially_balanced.
+
+(* Non-vacuity: a deferred read, a failed registration on a regular file at the dispatch limit, a timer and a post. *)
+Example C03_demo :
+  let s := lrun loop_init
+    [LObj 1 KSock; LObj 2 KReg; LTimer 3; LProg 10 []; LAct (AStart false false 1 4 10);
+     LDepth 32; LAct (AStart false false 2 4 10); LDepth 0;
+     LAct (ASched 3 false 5 10); LAct (APost 10)] in
+  l_pending s = 3 /\ interest s = 3 /\
+  let s' := lrun s [LAct (ACancel 1); LAct (ATCancel 3); LPoll [(2, 0, 1)]] in l_pending s' = 0 /\ interest s' = 0.
+Proof. vm_compute. auto. Qed.
